@@ -21,7 +21,7 @@ THEOREMS = ["Yaw.C02.chunks_flatten", "Yaw.C02.arraySplit_flatten", "Yaw.C02.wri
             "Yaw.C02.pipeline_independent", "Yaw.C02.header_roundtrip", "Yaw.C02.glue_pinned",
             "Yaw.C02.Grp.runs_flatten", "Yaw.C02.Grp.runs_spec", "Yaw.C02.Grp.groupby_spec", "Yaw.C02.Grp.groupby_model_spec",
             "Yaw.C02.Grp.groupby_pinned"]
-RULE = ("catalog creation from data frames (column dtypes f8/f4/i8/i4/u1), FITS (big-endian), HDF5 and Parquet (uniform and non-uniform row groups) "
+RULE = ("catalog creation from data frames (column dtypes f8/f4/i8/i4/u1; default, offset and permuted row labels), FITS (big-endian), HDF5 and Parquet (uniform and non-uniform row groups) "
         "(several row-group sizes), lengths around multiples of the chunk size, chunk sizes 1..n+1, optional columns in "
         "all combinations, degrees/radian, patch centres / patch-index column / generated centres, 1..4 worker "
         "processes (real pools), progress on/off: per-patch multisets of the 64-bit record patterns of the new and of "
@@ -133,7 +133,14 @@ def run(prop, tier, seed, replay):
             try:
                 with C.Workers(workers):
                     if source == "df":
-                        cat = Catalog.from_dataframe(root / f"c{ci}", pd.DataFrame(frame), **kw)
+                        pdf = pd.DataFrame(frame)
+                        idx_kind = ["default", "offset", "shuffled-labels", "default"][(ci // 3) % 4]
+                        if idx_kind == "offset":             # e.g. what a row selection without reset_index leaves
+                            pdf.index = np.arange(len(pdf)) * 3 + 1000
+                        elif idx_kind == "shuffled-labels":
+                            pdf.index = nprng.permutation(len(pdf))
+                        ck.count(f"index={idx_kind}")
+                        cat = Catalog.from_dataframe(root / f"c{ci}", pdf, **kw)
                     else:
                         path = root / f"in{ci}.{ {'fits': 'fits', 'hdf5': 'hdf5', 'parquet': 'pqt'}[source] }"
                         if source == "fits":
